@@ -249,7 +249,7 @@ Definition sub_step (c : cfg) (s : nat) (st : state) : state :=
       if mclosed st || (c_shardcap c <=? len (mbox st k)) then set_spc s (SUndoShard q b t0) st
       else
         let st1 := set_mbox (upd (mbox st) k (mbox st k ++ [T s q b])) st in
-        let st2 := if is_widle (wpcs st k) then set_wpc k WPending st1 else st1 in
+        let st2 := set_wpc k (if is_widle (wpcs st k) then WPending else wpcs st k) st1 in
         set_spc s SIdle (set_sends (sends st ++ [HSend s q b t0 (now st) true]) st2)
   | SUndoShard q b t0 =>
       set_spc s (SUndoQueue q b t0) (set_shq (upd (shq st) k (shq st k - 1)) st)
@@ -335,7 +335,7 @@ Definition work_step (c : cfg) (k : nat) (ch : choice) (st : state) : state :=
 
 Definition drain_return (d : nat) (t0 : N) (stop ok : bool) (st : state) : state :=
   let st1 := set_drains (drains st ++ [HDrain t0 (now st) ok]) st in
-  let st2 := if stop then set_cstarted true st1 else st1 in
+  let st2 := set_cstarted (stop || cstarted st1) st1 in
   set_dpc d DIdle st2.
 
 Definition drain_step (d : nat) (timeout : bool) (st : state) : state :=
